@@ -22,6 +22,8 @@ def src_hash():
     for f in sorted(os.listdir(d)):
         if f.endswith(".py"):
             h.update(open(os.path.join(d, f), "rb").read())
+    for extra in ("facts.py", "rules.py", "cfg.py"):          # what the interpreter sees also depends on how the facts are loaded
+        h.update(open(os.path.join(os.path.dirname(d), extra), "rb").read())
     return h.hexdigest()[:12]
 
 
